@@ -26,6 +26,10 @@ inductive Cls
   | scannerStop   -- UtxoScanner.Stop after batchManager has exited (`<-s.shutdown`)
   | subHandler    -- SubscriptionManager.subscriptionHandler (one goroutine)
   | subStop       -- SubscriptionManager.Stop after the handler has exited (`m.wg.Wait()`)
+  | workerMulti   -- a per-response callback of a query with several requests: runs on the worker goroutine of whichever
+                  -- peer answers, several invocations at once
+  | workerSeq     -- a per-response callback of a single-request query: on a worker goroutine, one invocation at a time
+                  -- (a retry on another worker starts after the first worker has reported to the dispatcher)
   deriving DecidableEq, Repr
 
 /-- can a function of class `a` run at the same time as one of class `b` (on the same object)? -/
@@ -38,6 +42,8 @@ def concurrent : Cls → Cls → Bool
   | .scanner, .scannerStop => false
   | .subStop, .subHandler => false
   | .subHandler, .subStop => false
+  | .workerMulti, _ => true
+  | _, .workerMulti => true
   | a, b => a != b          -- one goroutine per class: a class is not concurrent with itself
 
 structure Owner where
@@ -56,18 +62,30 @@ structure Racy where
   fnB : Nat
   deriving DecidableEq
 
+/-- a conflicting pair that is ordered by something other than a mutex (reviewed, with the reason) -/
+structure Ordered where
+  field : Nat
+  fnA : Nat
+  fnB : Nat
+  reason : String
+
 structure Tables where
   owners : List Owner
   callerHolds : List CallerHolds
   lockAlias : List (Nat × Nat)
   knownRacy : List Racy
+  ordered : List Ordered := []
 
 variable (T : Tables)
 
 def clsOf (fn : Nat) : Cls :=
   match T.owners.find? (·.fn == fn) with
   | some o => o.cls
-  | none => .api          -- unknown functions are assumed callable from anywhere
+  | none =>
+    -- callbacks registered with the work manager (extracted) run on worker goroutines
+    match callbacks.find? (·.fn == fn) with
+    | some cb => if cb.multi then .workerMulti else .workerSeq
+    | none => .api        -- unknown functions are assumed callable from anywhere
 
 def canon (l : Nat) : Nat :=
   match T.lockAlias.find? (·.1 == l) with
@@ -89,8 +107,11 @@ def isKnown (f a b : Nat) : Bool :=
 def conflict (r s : Access) : Bool :=
   r.field == s.field && (r.write || s.write) && concurrent (clsOf T r.fn) (clsOf T s.fn)
 
+def isOrdered (f a b : Nat) : Bool :=
+  T.ordered.any (fun k => k.field == f && ((k.fnA == a && k.fnB == b) || (k.fnA == b && k.fnB == a)))
+
 def pairOk (r s : Access) : Bool :=
-  !conflict T r s || share (effHeld T r.fn r.held) (effHeld T s.fn s.held)
+  !conflict T r s || share (effHeld T r.fn r.held) (effHeld T s.fn s.held) || isOrdered T r.field r.fn s.fn
 
 def rowOk (rows : List Access) (r : Access) : Bool := rows.all (pairOk T r)
 
